@@ -21,7 +21,9 @@ class TryCompute:
 
     def __exit__(self, exc_type, exc_value, exc_tb):
         self.depth -= 1
-        return exc_type is NotReadyError
+        # Running into a value that is being computed right now is not a cycle yet, as far as a
+        # speculative attempt is concerned: the attempt is retried when that value is known
+        return exc_type is NotReadyError or exc_type is DeferredCycle
 
 try_compute = TryCompute()
 
